@@ -13,6 +13,7 @@ import (
 	"fmt"
 	"maps"
 	"slices"
+	"strings"
 
 	"github.com/cedar-policy/cedar-go"
 	"github.com/cedar-policy/cedar-go/internal/consts"
@@ -118,12 +119,13 @@ func Authorize(ctx context.Context, policies cedar.PolicyIterator, entities type
 	findVariables(&found, request.Action)
 	findVariables(&found, request.Resource)
 	findVariables(&found, request.Context)
-	for key := range found.All() {
+	// in key order, so that the variable an error names does not depend on map iteration
+	for _, key := range slices.Sorted(found.All()) {
 		if _, ok := request.Variables[key]; !ok {
 			return fmt.Errorf("%w: %v", errUnboundVariable, key)
 		}
 	}
-	for k := range request.Variables {
+	for _, k := range slices.Sorted(maps.Keys(request.Variables)) {
 		if !found.Contains(k) {
 			return fmt.Errorf("%w: %v", errUnusedVariable, k)
 		}
@@ -165,8 +167,13 @@ func Authorize(ctx context.Context, policies cedar.PolicyIterator, entities type
 	for k, v := range request.Variables {
 		be.Variables = append(be.Variables, variableItem{Key: k, Values: v})
 	}
+	// shortest list first; variables with equally long lists in key order (they come out of a map: without the tie
+	// break the order in which they are bound, and with it the errors partial evaluation reports, changed per run)
 	slices.SortFunc(be.Variables, func(a, b variableItem) int {
-		return len(a.Values) - len(b.Values)
+		if d := len(a.Values) - len(b.Values); d != 0 {
+			return d
+		}
+		return strings.Compare(string(a.Key), string(b.Key))
 	})
 
 	// resolve ignores if no variables exist
